@@ -11,11 +11,11 @@ open Rsj.Core Rsj.Eval Rsj.Eval.Scope
 /-- later store (`Le`), invariant, `p`; a failure is not one of the panics excluded here, and the
     store stays safe -/
 def Q2 (s : St) {α} (p : α → St → Prop) : PostCond α PS :=
-  ⟨fun a st => ⌜Le s st ∧ Safe st ∧ p a st⌝, fun e st => ⌜Good2 e ∧ Safe st⌝, fun _ => ⌜True⌝, ()⟩
+  ⟨fun a st => ⌜Le s st ∧ Safe st ∧ p a st⌝, fun e st => ⌜Good2 e ∧ Safe st ∧ SzLe s st⌝, fun _ => ⌜True⌝, ()⟩
 
 /-- the same, conjuncts in another order: the form of the goal while `mvcgen` runs -/
 def Qg2 (s : St) {α} (p : α → St → Prop) : PostCond α PS :=
-  ⟨fun a st => ⌜Safe st ∧ Le s st ∧ p a st⌝, fun e st => ⌜Safe st ∧ Good2 e⌝, fun _ => ⌜True⌝, ()⟩
+  ⟨fun a st => ⌜Safe st ∧ Le s st ∧ p a st⌝, fun e st => ⌜Safe st ∧ Good2 e ∧ SzLe s st⌝, fun _ => ⌜True⌝, ()⟩
 
 /-- read-only operations -/
 def Qro2 (s : St) {α} (p : α → Prop) : PostCond α PS :=
@@ -24,18 +24,18 @@ def Qro2 (s : St) {α} (p : α → Prop) : PostCond α PS :=
 /-- the invariant of the loops that build an array of fresh thunks (`s1`: the store at loop entry) -/
 def outInv (s s1 : St) {β} : PostCond (β × List TId) PS :=
   ⟨fun (_, out) st => ⌜Safe st ∧ Le s st ∧ SzLe s1 st ∧ ∀ t ∈ out, t < st.thunks.size⌝,
-   fun e st => ⌜Safe st ∧ Good2 e⌝, fun _ => ⌜True⌝, ()⟩
+   fun e st => ⌜Safe st ∧ Good2 e ∧ SzLe s st⌝, fun _ => ⌜True⌝, ()⟩
 
 /-- the invariant of a loop without state of its own (`s1`: the store at loop entry) -/
 def loopInv (s s1 : St) {β} : PostCond β PS :=
-  ⟨fun _ st => ⌜Safe st ∧ Le s st ∧ SzLe s1 st⌝, fun e st => ⌜Safe st ∧ Good2 e⌝, fun _ => ⌜True⌝, ()⟩
+  ⟨fun _ st => ⌜Safe st ∧ Le s st ∧ SzLe s1 st⌝, fun e st => ⌜Safe st ∧ Good2 e ∧ SzLe s st⌝, fun _ => ⌜True⌝, ()⟩
 
 theorem triple_of_Qg2 {α} {x : M α} {P : St → Prop} {s : St} {p : α → St → Prop}
     (h : ⦃fun st => ⌜P st⌝⦄ x ⦃Qg2 s p⦄) : ⦃fun st => ⌜P st⌝⦄ x ⦃Q2 s p⦄ := by
   have := sem_of_triple (Qok := fun a st => Safe st ∧ Le s st ∧ p a st)
-    (Qerr := fun e st => Safe st ∧ Good2 e) h
+    (Qerr := fun e st => Safe st ∧ Good2 e ∧ SzLe s st) h
   refine triple_of_sem (Qok := fun a st => Le s st ∧ Safe st ∧ p a st)
-    (Qerr := fun e st => Good2 e ∧ Safe st) ?_
+    (Qerr := fun e st => Good2 e ∧ Safe st ∧ SzLe s st) ?_
   intro st hp
   have h1 := this st hp
   cases hx : x st with
@@ -45,7 +45,7 @@ theorem triple_of_Qg2 {α} {x : M α} {P : St → Prop} {s : St} {p : α → St 
     rw [hx] at h1
     cases r with
     | ok a => exact ⟨h1.2.1, h1.1, h1.2.2⟩
-    | error e => exact ⟨h1.2, h1.1⟩
+    | error e => exact ⟨h1.2.1, h1.1, h1.2.2⟩
 
 macro "qstart2" : tactic => `(tactic| apply triple_of_Qg2)
 
@@ -346,7 +346,7 @@ def ProgEx (t : Nat) (a b : St) : Prop :=
 theorem finishThunk_spec2 (s : St) (t : TId) (v : Value) (hS : Safe s)
     (hv : ValOk s.thunks.size s.objs.size s.funcs.size v) (hp : ∃ p, s.thunks[t]? = some (.inProgress p)) :
     ⦃fun st => ⌜st = s⌝⦄ finishThunk t v
-      ⦃(⟨fun _ st => ⌜SzLe s st ∧ Safe st ∧ ProgEx t s st⌝, fun e st => ⌜Good2 e ∧ Safe st⌝,
+      ⦃(⟨fun _ st => ⌜SzLe s st ∧ Safe st ∧ ProgEx t s st⌝, fun e st => ⌜Good2 e ∧ Safe st ∧ SzLe s st⌝,
          fun _ => ⌜True⌝, ()⟩ : PostCond Unit PS)⦄ := by
   obtain ⟨p, hp⟩ := hp
   unfold finishThunk; mvcgen
@@ -470,6 +470,8 @@ macro_rules
     | omega
     | pchain
     | contradiction
+    | exact ⟨by assumption, by assumption, by omega, by omega, by omega, by omega⟩
+    | exact ⟨by assumption, True.intro, by omega, by omega, by omega, by omega⟩
     | (simp [Good2]; fin)
     | exact ValOk.mono (by assumption) (by omega) (by omega) (by omega)
     | (simp only [TaskOk2, ResKind]; s2close)
